@@ -104,6 +104,44 @@ def stage_a(ctx, prop, log):
                 axioms=axioms, theorems=names)
 
 
+def _descendants(pid):
+    """pids of all live descendants of pid (from /proc; no third-party modules)"""
+    kids = {}
+    for d in os.listdir("/proc"):
+        if d.isdigit():
+            try:
+                with open(f"/proc/{d}/stat") as f:
+                    rest = f.read().rsplit(")", 1)[1].split()
+                kids.setdefault(int(rest[1]), []).append(int(d))
+            except (OSError, IndexError, ValueError):
+                pass
+    out, todo = [], [pid]
+    while todo:
+        for k in kids.get(todo.pop(), []):
+            out.append(k)
+            todo.append(k)
+    return out
+
+
+def _install_watchdog(pid_label, tier):
+    """A check that hangs (e.g. a dead-locked pipe to a Lean driver) must end as an internal error (exit 2),
+    never block the runs after it and never be read as a verdict."""
+    import signal
+    limit = int(os.environ.get("VERIF_TIME_LIMIT", "1500" if tier == "quick" else "10800"))
+
+    def on_alarm(signum, frame):
+        print(f"{pid_label}: check exceeded its own time limit of {limit} s - internal error, no verdict", flush=True)
+        for k in _descendants(os.getpid()):
+            try:
+                os.kill(k, signal.SIGKILL)
+            except OSError:
+                pass
+        os._exit(2)
+
+    signal.signal(signal.SIGALRM, on_alarm)
+    signal.alarm(limit)
+
+
 def main(argv=None):
     ap = argparse.ArgumentParser()
     ap.add_argument("prop")
@@ -113,6 +151,7 @@ def main(argv=None):
     args = ap.parse_args(argv)
     pid = args.prop.upper()
     t0 = time.time()
+    _install_watchdog(pid, args.tier)
     logdir = common.VERIF / ".cache" / "logs"
     logdir.mkdir(parents=True, exist_ok=True)
     logf = open(logdir / f"{pid}.log", "w")
